@@ -20,4 +20,8 @@ def getOr {α} (o : Option α) : R α := match o with | some a => pure a | none 
 /-- lookup that panics when absent. -/
 def getMust {α} (o : Option α) : R α := match o with | some a => pure a | none => throw .panic
 
+/-- guard on an optional configuration value: absent means "no constraint". -/
+def reqAll {α} (o : Option α) (p : α → Prop) [DecidablePred p] : R Unit :=
+  match o with | some a => req (p a) | none => pure ()
+
 end Cctp
